@@ -165,7 +165,8 @@ fn main() {
     vals.push(Value::Multiasset(3, mk_ma(&[Some(0u64), None, None])));
     let (mut n, mut panics) = (0u64, 0u64);
     // ---- addition and comparison: a coarse stride keeps the pair count near 10^5 -------------------------------------------------------
-    let stride = 7;
+    let thorough = std::env::args().nth(1).as_deref() == Some("thorough");
+    let stride = if thorough { 1 } else { 7 };
     for (i, a) in vals.iter().enumerate() { for b in vals.iter().skip(i % stride).step_by(stride) {
         let (ea, eb) = (amts_v(a), amts_v(b));
         match quiet(|| add_values(a, b, &err)) { None => panics += 1, Some(Err(_)) => {}, Some(Ok(r)) => {
@@ -193,7 +194,7 @@ fn main() {
     for a in mq { for b in mq { for c in mq {
         let mint: Multiasset<i64> = mk_ma(&[a, b, c]);
         let em = amts_of(None, Some(&mint), |x: i64| x as i128);
-        for v in vals.iter().step_by(3) {
+        for v in vals.iter().step_by(if thorough { 1 } else { 3 }) {
             let ev = amts_v(v);
             match quiet(|| add_minted_value(v, &mint, &err)) { None => panics += 1, Some(Err(_)) => {}, Some(Ok(r)) => {
                 if amts_v(&r) != sum(&ev, &em) { report("add_minted_value", format!("add_minted_value([{}], mint [{}]) = [{}]: not the exact sum", show(&ev), show(&em), show(&amts_v(&r)))); } } }
@@ -201,7 +202,7 @@ fn main() {
         }
         let nz = |x: Option<i64>| x.map(|v| NonZeroInt::try_from(v).unwrap());
         let cmint: CMultiasset<NonZeroInt> = mk_ma(&[nz(a), nz(b), nz(c)]);
-        for v in cvals.iter().step_by(3) {
+        for v in cvals.iter().step_by(if thorough { 1 } else { 3 }) {
             let ev = amts_c(v);
             match quiet(|| conway_add_minted_non_zero(v, &cmint, &err)) { None => panics += 1, Some(Err(_)) => {}, Some(Ok(r)) => {
                 if amts_c(&r) != sum(&ev, &em) { report("conway_add_minted_non_zero", format!("conway_add_minted_non_zero([{}], mint [{}]) = [{}]: not the exact sum", show(&ev), show(&em), show(&amts_c(&r)))); } } }
